@@ -13,7 +13,7 @@ REPO_SOURCES = V.all_repo_sources()          # the whole library, compiled from 
 WRAPPED = ["malloc", "calloc", "realloc", "aligned_alloc", "posix_memalign", "free",
            "eventfd", "epoll_create", "epoll_create1", "pipe", "pipe2", "socket", "accept", "accept4", "close"]
 LINK_FLAGS = ["-Wl,--wrap=" + w for w in WRAPPED]
-HEADER_LINES = 2
+HEADER_LINES = 3
 SHRINK = False                                # a case is (instance, fault set): nothing to delete
 CASE_TIMEOUT = 6.0
 
@@ -89,6 +89,26 @@ INSTANCES = [
     ("socket_evloop_on_wake", 60, 1, False, False, True),
     ("channel_init_rmutex", 61, 3, True, True, True),
 ]
+# boundary contents on the success path: (name, id, calls, number of caller-owned values stored in the container).
+# destroy runs with a counted free callback; a reported failure is retried without faults before destroy.
+CONTENT = [
+    ("trie_content_empty_key", 62, 1, 2), ("trie_content_empty_key_pool", 63, 0, 3),
+    ("trie_content_single_empty", 64, 1, 1), ("avl_tree_content", 65, 1, 4), ("avl_tree_content_single", 66, 1, 1),
+    ("hash_table_content", 67, 1, 3), ("hash_table_content_single", 68, 1, 1),
+    ("linked_list_content_head", 69, 1, 3), ("linked_list_content_pool_full", 70, 0, 2),
+    ("queue_content", 71, 1, 3), ("queue_content_pool_full", 72, 0, 2),
+    ("array_list_content_index0_full", 73, 0, 4), ("array_list_content_index0_grow", 74, 1, 5),
+    ("heap_content_grow", 75, 1, 5), ("stack_content_full", 76, 0, 4),
+]
+NVALS = {c[0]: c[3] for c in CONTENT}          # instances with values: retry after failure, freed == NVALS after destroy
+INSTANCES = INSTANCES + [(c[0], c[1], c[2], True, True, True) for c in CONTENT]
+# constructors (no pre-built object): also run with the object storage filled with 0xA5 instead of 0x00
+CTORS = ["channel_init_mutex", "channel_init_nolock", "channel_init_default", "channel_init_rmutex", "ring_buffer_init",
+         "double_buffer_init", "array_blocking_queue_init", "memory_pool_init", "sowr_memory_pool_init",
+         "ts_memory_pool_init", "ring_memory_pool_init", "pointer_slot_init", "bytes_buffer_init", "flow_ctl_init",
+         "array_list_init", "avl_tree_init_pool", "hash_table_init_pool", "heap_init", "linked_list_init_pool",
+         "queue_init_pool", "stack_init", "trie_init_pool", "ev_signal_init", "socket_evloop_handle_init",
+         "socket_evloop_pipe_init", "async_logger_init"]
 # cleanup blocks / failure handlers ("labels", numbered in coq/C18/Instances.v by H n) -> where they are in the C code
 LABEL_NAMES = {
     11: "memory_pool_init: data_bufs NULL", 12: "memory_pool_init: ptr_buf NULL", 13: "memory_pool_init: data_bufs[0] NULL",
@@ -137,7 +157,8 @@ TRUSTED_BASE = [
     "modelled, not verified: pthread mutex/condvar initialisation and thread creation never fail (not allocation / fd-creating calls)",
 ]
 ASSUMPTIONS = [
-    "caller-provided object storage is zero-initialised before the constructor is called (a field the failed constructor never wrote is NULL)",
+    "caller-provided object storage is run both zero-filled and 0xA5-filled before each constructor: the outcome must not depend on it "
+    "(the model has pointer fields start as NULL, which is what the constructors' own memset / unconditional assignments establish)",
     "a fault is a failing malloc/calloc/realloc/aligned_alloc or eventfd/epoll_create/pipe/socket call made by the library itself",
 ]
 EVIDENCE_NOTES = [
@@ -169,6 +190,12 @@ EVIDENCE_NOTES = [
     "files is muggle_ma_ring_thread_ctx_init/cleanup (covered)",
     "array_blocking_queue_init / double_buffer_init / ring_buffer_init leak or half-initialise only when pthread mutex/condvar "
     "initialisation fails; that is outside the property's fault class (allocation or fd-creating call) and is not injected",
+    "boundary-content instances (ids 62-76): containers pre-built with caller-owned heap values and contents that reach code the "
+    "plain instances never touch - the EMPTY trie key (root.children[0]) with and without node pool, a single element, insertion at "
+    "index 0 / at the head, a rejected duplicate (avl, hash table), node pool / array exactly full at destroy, growth with stored "
+    "values; destroy runs with a counted free callback (monitor: zero live and callback count == values stored, i.e. each value "
+    "released exactly once - a second release is a double free under ASan); a reported failure is followed by a fault-free retry "
+    "that must succeed ('safe to retry')",
     "trie_insert of a multi-byte key keeps the prefix nodes it created when a later node allocation fails; they stay owned by "
     "the trie and are released by destroy (monitor: zero live after destroy; the strict 'live unchanged' clause is not applied)",
     "async_logger_init: destroy is NOT called after a reported failure (its destroy joins a thread that was never created); "
@@ -176,10 +203,14 @@ EVIDENCE_NOTES = [
 ]
 
 
-def _mk(name, ks, tag):
+def _mk(name, ks, tag, fill=None):
     t = BY_NAME[name]
-    return V.Case("%s-%s" % (name, tag), ["inst %s %d" % (name, t[1]), "faults" + "".join(" %d" % k for k in ks)],
-                  {"inst": name, "ks": list(ks)})
+    lines = ["inst %s %d" % (name, t[1])]
+    if fill:
+        lines.append("fill %s" % fill)      # ignored by the model: the outcome must not depend on it
+        tag += "-" + fill
+    lines.append("faults" + "".join(" %d" % k for k in ks))
+    return V.Case("%s-%s" % (name, tag), lines, {"inst": name, "ks": list(ks)})
 
 
 def corpus_cases(ctx):
@@ -198,6 +229,10 @@ def generate(rng, tier):
         cases.append(_mk(name, [], "nofault"))
         for k in range(1, n + 4):
             cases.append(_mk(name, [k], "k%d" % k))
+        if name in CTORS:      # uninitialised (0xA5) object storage: a field the failed constructor never wrote is garbage
+            cases.append(_mk(name, [], "nofault", "a5"))
+            for k in range(1, n + 2):
+                cases.append(_mk(name, [k], "k%d" % k, "a5"))
     # multi-fault part: quick = seeded fault SETS of size 2..3 per instance; thorough = ALL pairs
     # {i, j} with 1 <= i < j <= calls+1, plus seeded triples
     seen = set()
@@ -207,6 +242,8 @@ def generate(rng, tier):
         if len(ks) >= 2 and (name, ks) not in seen:
             seen.add((name, ks))
             cases.append(_mk(name, list(ks), "m" + "_".join(map(str, ks))))
+            if name in CTORS:
+                cases.append(_mk(name, list(ks), "m" + "_".join(map(str, ks)), "a5"))
     for name, iid, n, reports, strict, dfail in INSTANCES:
         top = n + 1
         if tier == "quick":
@@ -237,7 +274,10 @@ def _parse(case, lines):
     m = case.meta
     if not m or "inst" not in m:
         w = case.lines[0].split()
-        ks = [int(x) for x in case.lines[1].split()[1:]] if len(case.lines) > 1 else []
+        ks = []
+        for ln in case.lines[1:]:
+            if ln.startswith("faults"):
+                ks = [int(x) for x in ln.split()[1:]]
         m = {"inst": w[1], "ks": ks}
     return m
 
@@ -250,6 +290,11 @@ def monitor(case, lines):
     if t is None:
         return "unknown instance %s" % m["inst"]
     name, iid, n, reports, strict, dfail = t
+    nv = NVALS.get(name, 0)
+    retry_line = None
+    if len(lines) == 4 and lines[2].startswith("retry rc="):
+        retry_line = lines[2]
+        lines = [lines[0], lines[1], lines[3]]
     if len(lines) != 3 or not lines[0].startswith("pre live=") or not lines[1].startswith("op rc=") \
             or not lines[2].startswith("destroy "):
         return "unexpected output %r" % (lines,)
@@ -258,7 +303,9 @@ def monitor(case, lines):
         f = dict(x.split("=") for x in lines[1].split()[1:])
         rc, att, live = f["rc"], int(f["att"]), int(f["live"])
         skipped = " skipped " in lines[2]
-        dlive = int(lines[2].split("=")[-1])
+        d = dict(x.split("=") for x in lines[2].split() if "=" in x)
+        dlive = int(d["live"])
+        freed = int(d["freed"]) if "freed" in d else None
     except (ValueError, KeyError, IndexError):
         return "unparsable output %r" % (lines,)
     hit = sorted(k for k in m["ks"] if 1 <= k <= att)
@@ -270,8 +317,14 @@ def monitor(case, lines):
             return "%s: %d block(s)/fd(s) live after the failed call, %d were live before it (leak)" % (where, live, base)
         if rc == "fail" and dfail and skipped:
             return "%s: destroy was not run" % where
+        if nv:
+            if retry_line != "retry rc=ok":
+                return "%s: the failed call was retried without faults and did not succeed (%r)" % (where, retry_line)
         if dlive != 0:
-            return "%s: %d block(s)/fd(s) still live after failed call%s" % (where, dlive, "" if skipped else " + destroy")
+            return "%s: %d block(s)/fd(s) still live after failed call%s" % (
+                where, dlive, "" if skipped else (" + retry + destroy" if nv else " + destroy"))
+        if nv and freed != nv:
+            return "%s: destroy released %s of the %d stored values through the free callback" % (where, freed, nv)
     else:
         if rc != "ok":
             return "%s: no fault was hit but the call reported failure" % where
@@ -281,6 +334,9 @@ def monitor(case, lines):
             return "%s: %d block(s)/fd(s) still live after success + destroy (destroy does not release all)" % (where, dlive)
         if live < base:
             return "%s: fewer live blocks after a successful call (%d) than before (%d)" % (where, live, base)
+        if nv and freed != nv:
+            return "%s: destroy released %s of the %d stored values through the free callback (each must be released exactly once)" % (
+                where, freed, nv)
     return None
 
 
@@ -371,7 +427,7 @@ MANIFEST = {
                    "tracked pointer variables): the outcome of a run depends only on the fault positions it consulted, so the finite "
                    "decision tree explored by the checker wf_scn covers every fault function; a scenario accepted by wf_scn reports "
                    "failure, leaks nothing, does not crash/hang/double-free and is safe to destroy under EVERY fault set, and behaves "
-                   "under any fault set as under its first hit.  62 instances transcribe the anchored constructors / growers / "
+                   "under any fault set as under its first hit.  77 instances transcribe the anchored constructors / growers / "
                    "inserters / destroys literally (wf_scn = true by vm_compute for the repaired code; the 17 transcriptions of the "
                    "unchanged defective code are refuted with a witness k).  Tied to the C code on every run by complete single-fault "
                    "enumeration + seeded multi-fault sets on the library compiled from the working tree with the allocator and "
